@@ -186,6 +186,20 @@ func init() {
 			BFS(c, &PartialFamily{Nmax: pick(c, 3, 4), TR: 63, UndoBud: 1, SetLimit: 2, NoIngest: true, Prop: "C09", UndoAs: "C06", Collect: "C06", Base: b}, 0)
 		}
 		if !c.Expired() {
+			// cross-feature: Verify(remember) and serialize/restore interleaved with undo
+			xf := &HistFamily{
+				Nmax:      4,
+				Insts:     stdInsts(pick(c, []uint8{0}, []uint8{0, 63}), []string{"all", "none"})[1:],
+				Or:        HistOracle{Roots: true, Proofs: true, Lookups: true, Prop: "C06", OnlyAfter: "undo", ProofSets: "small"},
+				UndoBud:   pick(c, 1, 2),
+				RTBud:     1,
+				VerBud:    1,
+				PermLimit: 2,
+			}
+			c.Cov.Bound["cross_feature"] = fmt.Sprintf("Nmax 4, undo %d, Verify(remember) 1, serialize/restore 1", xf.UndoBud)
+			BFS(c, xf, 0)
+		}
+		if !c.Expired() {
 			d3 := &HistFamily{
 				Nmax:      pick(c, 4, 5),
 				Insts:     stdInsts([]uint8{0, 63}, []string{"all", "none"})[1:],
